@@ -810,7 +810,13 @@ func runFrame(fr *frame) {
 		}
 		r := recover()
 		switch r.(type) {
-		case pathAbort, engineErr, violationStop, killGoroutine:
+		case engineErr:
+			ee := r.(engineErr)
+			if !strings.Contains(ee.msg, " [in ") {
+				ee.msg += " [in " + fr.fn.String() + "]"
+			}
+			panic(ee)
+		case pathAbort, violationStop, killGoroutine:
 			panic(r)
 		case runtime.Error:
 			panic(r) // engine bug: never attributed to the target
